@@ -20,7 +20,7 @@ package config
 //  G2  carrier position x hostile value (a poison in any non-secret string / list element)
 //  G3  every string location = the same hostile value (secrets marker-wrapped)
 //  G4  list lengths 1..3 x index of the hostile secret (part of G1 through the positions)
-//  G5  generated values: every string of length 1..3 (thorough 1..4) over a 16-character
+//  G5  generated values: every string of length 1..2 (thorough 1..3) over a 16-character
 //      hostile alphabet, in the wraps {M v M, v M, M v} at three secret positions and bare at
 //      two carrier positions
 //  G6  (thorough) secret position x hostile value x carrier position x structure-breaking value
@@ -128,6 +128,17 @@ type c35Case struct {
 	All  []byte   `json:"all,omitempty"` // G3: every location gets this value
 }
 
+func (cs c35Case) describe() string {
+	if cs.All != nil {
+		return fmt.Sprintf("every string field = %q", cs.All)
+	}
+	var parts []string
+	for _, st := range cs.Sets {
+		parts = append(parts, fmt.Sprintf("%s = %q", st.Path, st.Value))
+	}
+	return strings.Join(parts, ", ")
+}
+
 func (cs c35Case) apply(c *Config) bool {
 	secrets, carriers := c35Fill(c)
 	if cs.All != nil {
@@ -224,19 +235,33 @@ func c35Run(r *vmc.Result, cs c35Case, grid, valLabel string) {
 			r.Add("string_output_not_reparseable", 1)
 		}
 	}
-	if leak != "" {
-		r.Violate("C35/secret-in-string-output/"+site+"/"+valLabel, fmt.Sprintf("%s: %s (case %s, hostile value %s)", site, leak, grid, valLabel), cs)
-	}
-	if red == cfg {
-		r.Add("fail_open_returns_receiver", 1)
-	}
 	var locs []c35Loc
 	c35Walk(reflect.ValueOf(red).Elem(), "", &locs)
+	var holding []string
 	for _, l := range locs {
 		if strings.Contains(*l.ptr, c35Marker) {
-			r.Violate("C35/secret-in-redacted-config/"+c35Class(l.path)+"/"+valLabel, fmt.Sprintf("Redacted().%s still holds a secret (case %s at %s, hostile value %s)", l.path, grid, site, valLabel), cs)
-			break
+			holding = append(holding, l.path)
 		}
+	}
+	where := "field"
+	if strings.Contains(site, "[") {
+		where = "list-item"
+	}
+	if site == grid {
+		where = "all-fields"
+	}
+	switch {
+	case red == cfg && (leak != "" || len(holding) > 0):
+		// one root cause whatever the location: the deep copy failed and Redacted() handed back its receiver
+		r.Add("fail_open_returns_receiver", 1)
+		r.Violate("C35/fail-open-reveals-all-secrets/"+valLabel+"-in-"+where,
+			fmt.Sprintf("a %s value (%s) in %s makes the YAML deep copy fail; Redacted() returns its receiver and String() prints %d secrets in clear", valLabel, grid, cs.describe(), len(holding)), cs)
+	case len(holding) > 0:
+		for _, p := range holding {
+			r.Violate("C35/not-redacted/"+c35Class(p), fmt.Sprintf("Redacted().%s still holds a secret (case %s at %s, hostile value %s)", p, grid, site, valLabel), cs)
+		}
+	case leak != "":
+		r.Violate("C35/secret-in-string-output/"+site+"/"+valLabel, fmt.Sprintf("%s: %s although Redacted() holds none (case %s, hostile value %s)", site, leak, grid, valLabel), cs)
 	}
 	if !reflect.DeepEqual(cfg, twin) {
 		r.Violate("C35/original-modified/"+site, fmt.Sprintf("the original configuration changed while rendering (case %s, value %s)", grid, valLabel), cs)
@@ -353,7 +378,7 @@ func TestVerif_C35(t *testing.T) {
 	}
 	// G5: generated values
 	alpha := []string{" ", "\n", "\t", "\r", ":", "#", "-", "'", "\"", "|", ">", "a", "\x00", "\u0085", " ", "\xff"}
-	maxLen := vmc.Pick(r, 3, 4)
+	maxLen := vmc.Pick(r, 2, 3)
 	r.Info["generated_alphabet"] = fmt.Sprintf("%q", alpha)
 	r.Info["generated_max_len"] = maxLen
 	secretSpots := []string{"Agent.PrivateKey", "Peers[1].TLS.KeyPEM", "SOCKS5.Auth.Users[2].Password"}
